@@ -4,15 +4,17 @@ import json, os
 HERE = os.path.dirname(os.path.dirname(os.path.abspath(__file__)))
 
 TECH = 'bounded symbolic execution of the real Python code with z3 (path forking; per-path unsat queries; cex replay)'
-CLAIMED = {
-    'C01': dict(
-        text='Bounded symbolic model checking: two real ContactHandler endpoints are run on symbolic bundle lengths, '
-             'segment sizes and MRUs (all in [0|1,2^64)) with opaque payloads; every feasible path up to the stated '
-             'bounds is explored and each delivery/ordering/success obligation is discharged by z3 for all values on the path.',
-        note='Trusted: the engine (vf/), the stand-ins for dbus/GLib/sockets, z3.  Bounds: bundles per direction, '
-             'segments per bundle, scheduler deviations, CHUNK_SIZE lifted in most cases (see evidence.bounds).',
-        ref='5 C01'),
-}
+import sys, glob, importlib
+sys.path[:0] = [HERE, os.path.join(HERE, 'standins')]
+CLAIMED = {}
+for f in sorted(glob.glob(os.path.join(HERE, 'checks', 'c[0-9][0-9].py'))):
+    src = open(f).read()
+    ns = {}
+    # the MANIFEST dict of a check module is a literal: evaluate it without importing the engine
+    import ast
+    for node in ast.parse(src).body:
+        if isinstance(node, ast.Assign) and getattr(node.targets[0], 'id', None) == 'MANIFEST':
+            CLAIMED[os.path.basename(f)[:3].upper()] = ast.literal_eval(node.value)
 NA_REASON = 'check not built yet in this session (planned: DESIGN.md section 5)'
 ALL = ['C%02d' % i for i in range(1, 21)]
 
